@@ -219,6 +219,53 @@ def run_machine(col, part, n):
         M.sink = None
 
 
+def run_fuzz(col, part):
+    """Run an atheris campaign in a child process and fold its counters into the collector."""
+    import shutil
+    import subprocess
+    from . import env as E
+    if col.tier not in part.tiers:
+        return
+    if not E.ensure_deps(modules=("atheris",)):
+        col.harness_errors.append({"part": part.name, "error": "atheris could not be installed from the wheelhouse"})
+        return
+    runs = part.runs_quick if col.tier == "quick" else part.runs_thorough
+    runs = max(1, int(runs * float(os.environ.get("VERIF_SCALE", "1"))))
+    out = os.path.join(E.CACHE, "fuzz-%s-%s-%d-%d" % (col.prop, part.name, os.getpid(), col.shard))
+    shutil.rmtree(out, ignore_errors=True)
+    corpus = "seeded" if col.shard % 2 else "empty"          # both an empty and a seeded corpus are tried
+    cmd = [sys.executable, "-m", part.module, col.prop, out, str(runs), str(_part_seed(col.seed, col.shard, part.name) % (2 ** 31)), corpus]
+    r = subprocess.run(cmd, cwd=VERIF, capture_output=True, text=True)
+    stats_path = os.path.join(out, "stats.json")
+    try:
+        if not os.path.exists(stats_path):
+            col.harness_errors.append({"part": part.name, "error": "fuzzer produced no stats (rc=%d)\n%s" % (r.returncode, (r.stdout + r.stderr)[-2000:])})
+            return
+        with open(stats_path) as fh:
+            stt = json.load(fh)
+        col.evaluations += stt["evaluations"]
+        p = col.parts.setdefault(part.name, {"evaluations": 0, "nontrivial": 0, "distinct_nontrivial": 0})
+        p["evaluations"] += stt["evaluations"]
+        p["nontrivial"] += stt["nontrivial"]
+        for h in stt["hashes"]:
+            hh = part.name + ":" + h.split(":", 1)[1]
+            if hh not in col.nontrivial_hashes:
+                col.nontrivial_hashes.add(hh)
+                p["distinct_nontrivial"] += 1
+        for k, v in stt["classes"].items():
+            col.classes["fuzz:" + k] = col.classes.get("fuzz:" + k, 0) + v
+        col.classes["fuzz-corpus:" + corpus] = col.classes.get("fuzz-corpus:" + corpus, 0) + 1
+        col.known_hits += stt.get("known_hits", 0)
+        if stt.get("violation"):
+            v = stt["violation"]
+            rel = write_replay(col.prop, part.name, v["case"], v["desc"])
+            col.violations.append({"part": part.name, "desc": v["desc"], "replay": rel})
+        elif r.returncode not in (0, 77):
+            col.harness_errors.append({"part": part.name, "error": "fuzzer rc=%d\n%s" % (r.returncode, (r.stdout + r.stderr)[-2000:])})
+    finally:
+        shutil.rmtree(out, ignore_errors=True)
+
+
 def run_regressions(col, mod, envtag):
     """Replay the committed minimal cases of earlier failures (regress/<ID>/*.json) first."""
     d = os.path.join(VERIF, "regress", col.prop)
@@ -288,7 +335,9 @@ def main(argv):
                 ps = part.shards_quick if tier == "quick" else part.shards_thorough
                 if ps is not None and shard >= ps:
                     continue
-                if part.kind == "grid":
+                if part.kind == "fuzz":
+                    run_fuzz(col, part)
+                elif part.kind == "grid":
                     run_grid(col, part)
                 else:
                     n = part.n_quick if tier == "quick" else part.n_thorough
